@@ -76,6 +76,7 @@ class Online:
     self.codes = {}
     self.installed = False
     self.pristine = None
+    self.parse_failure_classifier = None   # (text, error message) -> violation key or None, for recorded findings
     self.rt_classifier = None   # (text, reparsed text, bound values) -> violation key or None: maps recorded findings onto their mechanism keys
     self.fn_codes = set()     # code objects of wrapped functions, given a local PY_START event when first seen
 
@@ -404,6 +405,8 @@ class Online:
       key = 'online:%s-%s' % (label, 'does-not-parse' if what == 'raised' else 'roundtrip-differs')
       if what == 'differs' and self.rt_classifier is not None:
         key = self.rt_classifier(text, detail, values) or key
+      if what == 'raised' and self.parse_failure_classifier is not None:
+        key = self.parse_failure_classifier(text, detail) or key
       self.violation(key, '%s\n--- text\n%s\n--- %s\n%s' % (label, text[:700], what, detail[:700]))
     self.count('oracle_evals', 2)
 
